@@ -395,9 +395,11 @@ func cmdCheck(args []string) {
 		}
 		prev = l
 	}
+	declaredAssumptions = g.cs.Scan
 	finish(*prop, *tier, seed, cfg, frs, obs, violations, append(ifaceUsed, trustedUsed...), t0, len(knownLines))
 }
 
+var declaredAssumptions []string // cs.Scan of the loaded contract files
 var knownObl = map[string]bool{}  // listed findings seen to fail in this run
 var knownBase = map[string]bool{} // every listed finding (excluded from the proof counts)
 
@@ -439,6 +441,15 @@ func finish(prop, tier string, seed int, cfg *propConfig, frs []*FuncResult, obs
 	}
 	for _, a := range assumedContracts {
 		assumptions = append(assumptions, "assumed contract (not verified here): "+a)
+	}
+	// every assumption declared in the contract files (axioms, rely invariants, jspreserved/abrupt/script
+	// relies, extern functions, assumed postconditions), found by scanning them on every run
+	seenScan := map[string]bool{}
+	for _, sc := range declaredAssumptions {
+		if !seenScan[sc] {
+			seenScan[sc] = true
+			assumptions = append(assumptions, "declared in the contract files: "+sc)
+		}
 	}
 	for _, nc := range cfg.NotCovered {
 		assumptions = append(assumptions, "not covered: "+nc)
